@@ -182,6 +182,10 @@ def _run(case: dict, with_bad: bool):
         m.response_hook = lambda fr, p, outp: pre + (outp if good else []) + post
         if case.get("fan") is not None:
             m.state.fan = case["fan"]        # the unit reports an in-between fan speed (whatever its capabilities say)
+        if case.get("state_len"):
+            m.state_len = case["state_len"]  # an older unit: its state reports end before the optional trailing fields
+        if case.get("mode"):
+            m.state.mode = case["mode"]
         try:
             await _operate(ac, case["op"])
         except Exception as e:
@@ -423,6 +427,16 @@ def run(ctx) -> None:
                     case = {"op": op, "good": True, "pre": [spec] if i else [], "post": [], "two_pages": False, "prepared": False, "fan": fan}
                     ctx.check(case, lambda c: _run_one(ctx, c))
     ctx.sweep("poll before and after the capability query x reported in-between fan speed x bad frames", fh, True)
+    # older units with short state reports (16..21 bytes: target humidity / freeze protection unknown), in every mode, polled and applied to
+    sh = 0
+    for state_len in (16, 17, 18, 19, 20, 21):
+        for mode in (1, 2, 3, 4, 5, 6):
+            for op in ("refresh,apply", "refresh,apply_props", "refresh,toggle,apply", "caps,refresh,apply"):
+                sh += 1
+                if ctx.mine(sh):
+                    case = {"op": op, "good": True, "pre": [], "post": [], "two_pages": False, "prepared": sh % 2 == 0, "state_len": state_len, "mode": mode}
+                    ctx.check(case, lambda c: _run_one(ctx, c))
+    ctx.sweep("short state reports x operational mode x operation sequences", sh, True)
     # an apply overlapping a poll whose exchanges also carry undecodable frames
     ov = 0
     for i, spec in enumerate(specs[:: max(1, len(specs) // 24)]):
@@ -456,7 +470,7 @@ def run(ctx) -> None:
     )
     cases = st.fixed_dictionaries({"op": st.sampled_from(OPS), "good": st.booleans(), "pre": st.lists(spec, max_size=2),
                                    "post": st.lists(spec, max_size=2), "two_pages": st.booleans(), "prepared": st.booleans()},
-                                  optional={"hangup": st.sampled_from(["fin", "rst", "fin_same", "rst_same"]), "strict": st.booleans(), "fan": st.sampled_from([1, 33, 50, 99, 101])})
+                                  optional={"hangup": st.sampled_from(["fin", "rst", "fin_same", "rst_same"]), "strict": st.booleans(), "fan": st.sampled_from([1, 33, 50, 99, 101]), "state_len": st.sampled_from([16, 18, 19, 21]), "mode": st.sampled_from([1, 3, 6])})
     ctx.hyp("mixes", cases, lambda c: _run_one(ctx, c), ctx.n(2500, 480000))
 
     # coverage-guided search (atheris/libFuzzer) over the same structured input space; an additional search,
